@@ -1153,7 +1153,8 @@ func checkC12(p *Prog, res *Result, tier string) {
 	res.Explanation = "Engine independence is a 2-safety property over engines; statically it reduces to the points where engine differences can leak. Shared with C11: identical condition-failure classes across adapters and compare-before-write (C11-R1), not-found identity (C11-R6), wrapper transparency (C11-R5), partition clamp (C11-R7). Own rules: R1 dispatch completeness — the write paths of the backend test errors only for the classes the adapter table defines (errors.Is ErrCASFailed / ErrUncertainResult, ==/Is ErrKeyNotFound, the Conflict type assertion), never for an engine-specific error; R2 the engine feature flag SupportTTL is consulted only in the scanner's expiry code."
 	res.NotDecided = "equality of transcripts across engines; engine-specific limits (transaction size, TTL timing)."
 	res.Assumptions = []string{"C11 assumptions"}
-	res.rule("C12-R0", "C11-R1 / R5 / R6 / R7 (sibling agreement of the adapters and the wrapper)", 30)
+	res.rule("C12-R0", "C11-R1 / R2 / R5 / R6 / R7 (sibling agreement of the adapters and the wrapper; batch begin/commit discipline, which only the in-process engine turns into a lock)", 30)
+	res.rule("C12-R4", "results do not depend on how the engine partitions the key space, which only TiKV does (C13-R5)", 2)
 	res.rule("C12-R1", "the backend's write paths dispatch only on the error classes of the adapter table", 5)
 	res.rule("C12-R2", "SupportTTL is consulted only by the scanner's expiry code", 2)
 	res.rule("C12-R3", "the in-process engine's iterator yields snapshot copies: live skip-list elements are dereferenced only under the store lock (C19-R3)", 4)
@@ -1161,9 +1162,16 @@ func checkC12(p *Prog, res *Result, tier string) {
 	sub := newResult("C11")
 	checkC11(p, sub, tier)
 	for _, o := range sub.Obls {
-		if o.Rule == "C11-R1" || o.Rule == "C11-R5" || o.Rule == "C11-R6" || o.Rule == "C11-R7" {
+		if o.Rule == "C11-R1" || o.Rule == "C11-R2" || o.Rule == "C11-R5" || o.Rule == "C11-R6" || o.Rule == "C11-R7" {
 			res.add("C12-R0", o.Rule+" "+o.Construct, o.Status, o.Pos, o.Detail)
 		}
+	}
+	// R4: only one engine reports more than one partition, so every dependence of a result on the partitioning is a
+	// dependence on the engine (C13-R5: borders contiguous and realigned)
+	sub13 := newResult("C13")
+	checkBorderContiguity(p, r, sub13, p.ssaPkg("pkg/backend/scanner"))
+	for _, o := range sub13.Obls {
+		res.add("C12-R4", o.Rule+" "+o.Construct, o.Status, o.Pos, o.Detail)
 	}
 	for k, v := range sub.Stats {
 		res.Stats[k] = v
